@@ -50,6 +50,9 @@ pub fn parse_csv_row(row: &str) -> Vec<String> {
         let end = match result {
             ReadFieldResult::InputEmpty => true,
             ReadFieldResult::Field { .. } => false,
+            // `End` carries no field: it follows the empty last field of a row that ends with a
+            // comma. (For an empty row it is the first result; such a row has one empty field.)
+            ReadFieldResult::End if !features.is_empty() => break,
             ReadFieldResult::End => true,
             _ => unreachable!(),
         };
